@@ -172,6 +172,15 @@ func drawDialectModel(t *rapid.T, idx int) XDialect {
 				usedValues[e.Name][v] = true
 				e.Entries = append(e.Entries, XEntry{Name: name, Value: v, Text: enumValueText(t, v, "val"), Desc: drawDesc(t, "entdesc")})
 			}
+			// a bitmask enum may also name a combination of its own flags (e.g. READ_WRITE = READ | WRITE)
+			if e.Bitmask && !extend && len(e.Entries) >= 2 && rapid.IntRange(0, 3).Draw(t, "combo_entry") == 0 {
+				v := e.Entries[0].Value | e.Entries[1].Value
+				name := e.Name + "_COMBO"
+				if !usedValues[e.Name][v] && entryNames.take(name) {
+					usedValues[e.Name][v] = true
+					e.Entries = append(e.Entries, XEntry{Name: name, Value: v, Text: fmt.Sprint(v)})
+				}
+			}
 			if len(e.Entries) > 0 {
 				d.Files[fi].Enums = append(d.Files[fi].Enums, e)
 			}
